@@ -6,7 +6,12 @@
 #include "common/verif.hpp"
 using namespace hfsm2; using namespace hfsm2::detail;
 static unsigned g_rng_draws_; static float g_rng_last_;
-struct Rng { float next() { float f = nd_f32(); VASSUME(f >= 0.0f && f < 1.0f); ++g_rng_draws_; g_rng_last_ = f; return f; } };
+static bool g_rng_grid; static uint32_t g_rng_m;      // grid mode: the generator returns m / 2^20 (exactly representable; products with small integer sums are exact)
+struct Rng { float next() {
+  float f;
+  if (g_rng_grid) { g_rng_m = nd_u32(); VASSUME(g_rng_m < (1u << 20)); f = (float) g_rng_m * (1.0f / 1048576.0f); }
+  else { f = nd_f32(); VASSUME(f >= 0.0f && f < 1.0f); }
+  ++g_rng_draws_; g_rng_last_ = f; return f; } };
 using Cfg = hfsm2::Config::ManualActivation::RandomT<Rng>;
 using M = hfsm2::MachineT<Cfg>;
 #define S(s) struct s
@@ -31,6 +36,28 @@ static const VSpec VM_SPEC[VM_NS] = {
 #define VM_NCFG 4
 #include "tier_c/machine_common.hpp"
 struct A : St<1> {}; struct U : St<2> {}; struct V1 : St<4> {}; struct V2 : St<5> {}; struct U1 : St<6> {};
+#define VM_FOR_STATES(F_) F_(A, 1) F_(U, 2) F_(V1, 4) F_(V2, 5) F_(U1, 6)
+#elif defined(VM_RESUMABLE_IN_UTIL)
+// utilitarian region whose FIRST prong is a RESUMABLE region wider than the utilitarian region itself, next to a leaf
+// (a region evaluated by its parent reports ITS OWN prong in the parent, whatever sub-state it would resume)
+using FSM = M::PeerRoot< S(A), M::Utilitarian<S(U), M::Resumable<S(R), S(R1), S(R2), S(R3)>, S(U1)> >;
+#define VM_NS 8
+#define VM_NC 3
+#include "tier_c/spec_types.hpp"
+static const VSpec VM_SPEC[VM_NS] = {
+  /*0  root*/ { -1, 0, K_COMPO, 2, ST_COMPOSITE,   0 },
+  /*1  A   */ {  0, 0, K_LEAF,  0, ST_NONE,       -1 },
+  /*2  U   */ {  0, 1, K_COMPO, 2, ST_UTILITARIAN, 1 },
+  /*3  R   */ {  2, 0, K_COMPO, 3, ST_RESUMABLE,   2 },
+  /*4  R1  */ {  3, 0, K_LEAF,  0, ST_NONE,       -1 },
+  /*5  R2  */ {  3, 1, K_LEAF,  0, ST_NONE,       -1 },
+  /*6  R3  */ {  3, 2, K_LEAF,  0, ST_NONE,       -1 },
+  /*7  U1  */ {  2, 1, K_LEAF,  0, ST_NONE,       -1 },
+};
+#define VM_NCFG 5
+#include "tier_c/machine_common.hpp"
+struct A : St<1> {}; struct U : St<2> {}; struct R : St<3> {}; struct R1 : St<4> {}; struct R2 : St<5> {}; struct R3 : St<6> {}; struct U1 : St<7> {};
+#define VM_FOR_STATES(F_) F_(A, 1) F_(U, 2) F_(R, 3) F_(R1, 4) F_(R2, 5) F_(R3, 6) F_(U1, 7)
 #elif defined(VM_NESTED_UTIL)
 // utilitarian region whose FIRST prong is a nested utilitarian region, a leaf, and an orthogonal prong containing another utilitarian region
 // (utility of a nested region = head x chosen sub; orthogonal = head x mean)
@@ -56,6 +83,7 @@ static const VSpec VM_SPEC[VM_NS] = {
 #include "tier_c/machine_common.hpp"
 struct A : St<1> {}; struct U : St<2> {}; struct V : St<3> {}; struct V1 : St<4> {}; struct V2 : St<5> {}; struct U1 : St<6> {};
 struct O : St<7> {}; struct O1 : St<8> {}; struct W : St<9> {}; struct W1 : St<10> {}; struct W2 : St<11> {};
+#define VM_FOR_STATES(F_) F_(A, 1) F_(U, 2) F_(V, 3) F_(V1, 4) F_(V2, 5) F_(U1, 6) F_(O, 7) F_(O1, 8) F_(W, 9) F_(W1, 10) F_(W2, 11)
 #else
 using FSM = M::PeerRoot< S(A), M::Utilitarian<S(U), S(U1), S(U2), S(U3)>, M::Random<S(N), S(N1), S(N2), S(N3)> >;
 #define VM_NS 10
@@ -76,6 +104,7 @@ static const VSpec VM_SPEC[VM_NS] = {
 #define VM_NCFG 7
 #include "tier_c/machine_common.hpp"
 struct A : St<1> {}; struct U : St<2> {}; struct U1 : St<3> {}; struct U2 : St<4> {}; struct U3 : St<5> {}; struct N : St<6> {}; struct N1 : St<7> {}; struct N2 : St<8> {}; struct N3 : St<9> {};
+#define VM_FOR_STATES(F_) F_(A, 1) F_(U, 2) F_(U1, 3) F_(U2, 4) F_(U3, 5) F_(N, 6) F_(N1, 7) F_(N2, 8) F_(N3, 9)
 #endif
 #include "tier_c/view.hpp"
 #include "tier_c/steps.hpp"
